@@ -7,6 +7,7 @@ void shp_sp_clear(void *m) {  }
 int shp_sp_insert(void *m, uint32_t r, uint32_t c) { return 0; }
 int shp_sp_find(void *m, uint32_t r, uint32_t c) { return 0; }
 int shp_sp_delete(void *m, uint32_t r, uint32_t c) { return 0; }
+long shp_sp_delete_run(void *m, int by_col, uint32_t line, uint32_t skip, uint32_t count, int32_t *out, long cap) { return 0; }
 void shp_sp_copy(void *m, void *r) {  }
 void shp_sp_copyrows(void *m, void *r, uint32_t *rows) {  }
 void shp_sp_copycols(void *m, void *r, uint32_t *cols) {  }
@@ -70,6 +71,26 @@ int shp_sp_delete(void *m, uint32_t r, uint32_t c)
 	if (e) of_mod2sparse_delete((of_mod2sparse *) m, e);
 	OUT;
 	return e != NULL;
+}
+/* deletes `count` consecutive entries of one row (or column) through the handles of a traversal, as the decoders do:
+ * no lookup is involved. Skips `skip` entries first; writes the other coordinate of every deleted entry to out. */
+long shp_sp_delete_run(void *m, int by_col, uint32_t line, uint32_t skip, uint32_t count, int32_t *out, long cap)
+{
+	of_mod2sparse *M = (of_mod2sparse *) m;
+	of_mod2entry *e, *nx;
+	long n = 0;
+	IN;
+	e = by_col ? of_mod2sparse_first_in_col(M, line) : of_mod2sparse_first_in_row(M, line);
+	while (!of_mod2sparse_at_end(e) && skip) { e = by_col ? of_mod2sparse_next_in_col(e) : of_mod2sparse_next_in_row(e); skip--; }
+	while (!of_mod2sparse_at_end(e) && count && n < cap) {
+		nx = by_col ? of_mod2sparse_next_in_col(e) : of_mod2sparse_next_in_row(e);
+		out[n++] = by_col ? of_mod2sparse_row(e) : of_mod2sparse_col(e);
+		of_mod2sparse_delete(M, e);
+		e = nx;
+		count--;
+	}
+	OUT;
+	return n;
 }
 void shp_sp_copy(void *m, void *r) { IN; of_mod2sparse_copy((of_mod2sparse *) m, (of_mod2sparse *) r); OUT; }
 void shp_sp_copyrows(void *m, void *r, uint32_t *rows) { IN; of_mod2sparse_copyrows((of_mod2sparse *) m, (of_mod2sparse *) r, rows); OUT; }
